@@ -15,7 +15,7 @@ FUNCTIONS = ['normalize', 'spectral_layout_die (orthogonalize / calculate_centro
 BOUNDS = {'quick': 'lemma N: n<=3 entries (all reals, spans>0, fixed flags enumerated); loop: 3 nodes, one and two dimensions, '
                    '<=1 iteration per dimension from arbitrary intermediate vectors; wrap-up: 5 modules (3 soft, 1 hard, 1 fixed), '
                    'trial counts 0..3, die and areas symbolic',
-          'thorough': 'lemma N n<=4; loop <=2 iterations; wrap-up with a two-rectangle hard module'}
+          'thorough': 'lemma N n<=4; wrap-up with a two-rectangle hard module'}
 STUBS = ['loop harness: normalize replaced by its contract (lemma N, proved on the real normalize by the normalize cases)', 'orthogonalize/calculate_centroids: leave arbitrary real vectors (fixed entries kept by the real code around them)',
          'abs_norm_dot_product / wirelength: arbitrary real', 'random.uniform(a,b): arbitrary value in [a,b]',
          'wrap-up: spectral_layout_die returns arbitrary coordinates satisfying the postcondition proved by the loop harness']
@@ -44,8 +44,8 @@ def cases(tier):
         for fixed in itertools.product([0, 1], repeat=n):
             cs.append(dict(kind='normalize', n=n, fixed=list(fixed)))
     for dims in (1, 2):
-        for iters in ((0, 1) if tier == 'quick' else (0, 1, 2)):
-            if dims == 2 and iters > (0 if tier == 'quick' else 1):
+        for iters in (0, 1):
+            if dims == 2 and iters > 0:
                 continue
             for fixed, unk in (([0, 0, 0], [0, 0, 0]), ([0, 0, 0], [1, 1, 1]), ([1, 0, 0], [0, 1, 0]), ([1, 0, 1], [0, 0, 0])):
                 cs.append(dict(kind='loop', dims=dims, iters=iters, fixed=fixed, unk=unk))
